@@ -259,7 +259,7 @@ pub(crate) mod u6 {
             program: vec![],
             int_constants: vec![],
             float_constants: vec![],
-            static_strings: vec![],
+            static_strings: Vec::with_capacity(2),
             filename_table: vec![],
             lineno_table: vec![],
             function_name_table: vec![],
@@ -470,6 +470,11 @@ pub(crate) mod u6 {
         }
         t.gc_debt = kani::any();
         t.last_gc_heap_size = kani::any();
+        // ASSUMPTION (pacing counters): gc_debt is never reset by the real code and is added to
+        // with `+=` on every allocation, maybe_gc multiplies both counters by 2; an overflow
+        // needs 2^62 bytes of cumulative allocation.  Out of scope here (a pacing matter, C07.1).
+        kani::assume(t.gc_debt <= usize::MAX / 8);
+        kani::assume(t.last_gc_heap_size <= usize::MAX / 8);
         World { t, objs, n, stat }
     }
 
